@@ -47,8 +47,26 @@ pub struct TxScript { pub input_index: usize }
 impl Clone for TxScript { #[verifier::external_body] fn clone(&self) -> (r: Self) ensures r == *self { unimplemented!() } }
 //@struct Interpreter @ src/interpreter/mod.rs
 //@include spec/interp.rs
-#[verifier::external_body] pub fn checksig(state: &mut State, txscript: &mut TxScript) -> (r: Result<bool, InterpreterError>) { unimplemented!() }
-#[verifier::external_body] pub fn multisig(state: &mut State, txscript: &mut TxScript) -> (r: Result<bool, InterpreterError>) { unimplemented!() }
+// checksig / multisig as seen from match_opcode: the abstraction of their contracts proved in unit interp_sig (C15).
+// The verdict is an uninterpreted function of the operands here; which signatures it accepts is interp_sig's business.
+// The stack-protocol and frame clauses are the clauses [pops_key_then_signature], [stack_protocol...], [touches_only_the_main_stack] of interp_sig.
+pub uninterp spec fn checksig_verdict(stack: Seq<Vec<u8>>, cs_offset: usize, t: TxScript) -> Option<bool>;
+pub uninterp spec fn multisig_verdict(stack: Seq<Vec<u8>>, cs_offset: usize, t: TxScript) -> Option<bool>;
+pub open spec fn multisig_consumed(st: Seq<Vec<u8>>) -> int { let l = st.len() as int; let n = scriptnum(st[l - 1]@); let m = scriptnum(st[l - 2 - n]@); n + m + 3 }
+#[verifier::external_body] pub fn checksig(state: &mut State, txscript: &mut TxScript) -> (r: Result<bool, InterpreterError>)
+    ensures
+        final(state).alt_stack@ == old(state).alt_stack@ && final(state).status == old(state).status && final(state).executed_opcodes@ == old(state).executed_opcodes@ && final(state).codeseparator_offset == old(state).codeseparator_offset,
+        (r is Ok) == (checksig_verdict(old(state).stack@, old(state).codeseparator_offset, *old(txscript)) is Some),
+        r is Ok ==> r->Ok_0 == checksig_verdict(old(state).stack@, old(state).codeseparator_offset, *old(txscript))->Some_0,
+        r is Ok ==> old(state).stack@.len() >= 2 && final(state).stack@ == old(state).stack@.subrange(0, old(state).stack@.len() - 2),
+{ unimplemented!() }
+#[verifier::external_body] pub fn multisig(state: &mut State, txscript: &mut TxScript) -> (r: Result<bool, InterpreterError>)
+    ensures
+        final(state).alt_stack@ == old(state).alt_stack@ && final(state).status == old(state).status && final(state).executed_opcodes@ == old(state).executed_opcodes@ && final(state).codeseparator_offset == old(state).codeseparator_offset,
+        (r is Ok) == (multisig_verdict(old(state).stack@, old(state).codeseparator_offset, *old(txscript)) is Some),
+        r is Ok ==> r->Ok_0 == multisig_verdict(old(state).stack@, old(state).codeseparator_offset, *old(txscript))->Some_0,
+        r is Ok ==> old(state).stack@.len() >= 1 && 3 <= multisig_consumed(old(state).stack@) <= old(state).stack@.len() && final(state).stack@ == old(state).stack@.subrange(0, old(state).stack@.len() - multisig_consumed(old(state).stack@)),
+{ unimplemented!() }
 //@struct Hash @ src/hash/mod.rs clone
 impl Hash {
 //@stub Hash::to_bytes
